@@ -78,6 +78,7 @@ func Main(c *run.Ctx) {
 	c.Floor("neighbouring label sets fingerprinted", 100, 0)
 	c.Floor("acknowledged samples checked for a discoverable series row", 200, 0)
 	c.Floor("histories with a failed series insert followed by a client retry", 1, 0)
+	c.Floor("pushes whose first series insert attempt fails", 1, 0)
 	c.Floor("histories with a cache reset between pushes", 1, 0)
 	c.Floor("samples within 1 s of UTC or local midnight", 10, 0)
 	c.Floor("pushes with one stream's entries on several UTC days and out of time order", 10, 0)
@@ -536,9 +537,9 @@ func runHistory(c *run.Ctx, cfg childCfg, gi int) {
 	midnight := 0
 	unordered := 0
 	for o := 0; o < nops; o++ {
-		op := []string{"push", "push", "push-next-day", "fail-series+retry", "cache-reset", "push-midnight", "push-unordered-days"}[r.Intn(7)]
+		op := []string{"push", "push", "push-next-day", "fail-series+retry", "cache-reset", "push-midnight", "push-unordered-days", "fail-series-once"}[r.Intn(8)]
 		if o == 0 && gi%3 == 0 {
-			op = "fail-series+retry"
+			op = []string{"fail-series+retry", "fail-series-once"}[(gi/3)%2]
 		}
 		if o == 1 && gi%3 == 1 {
 			op = "push-midnight"
@@ -624,7 +625,15 @@ func runHistory(c *run.Ctx, cfg childCfg, gi int) {
 			hist = append(hist, p)
 			return p
 		}
-		if op == "fail-series+retry" {
+		if op == "fail-series-once" {
+			// only the first attempt of the series insert fails: the writer's own retry of the same request has to
+			// bring the row in before the push is acknowledged
+			failSeries = 1
+			p := send("push(series insert fails once)")
+			failSeries = 0
+			c.Floor("pushes whose first series insert attempt fails", 0, 1)
+			c.Cover("history-events", fmt.Sprintf("series insert fails once: answered %dxx", p.rec.Status/100), 1)
+		} else if op == "fail-series+retry" {
 			hadRetry = true
 			failSeries = int32(cfg.Writer.RetryAttempts) // every attempt of the series insert fails
 			p := send("push(series insert fails)")
@@ -643,6 +652,7 @@ func runHistory(c *run.Ctx, cfg childCfg, gi int) {
 	type sk struct{ sid, date string }
 	seriesOK := map[sk]int64{}
 	seriesFailed := map[sk]bool{}
+	failedAt := map[sk][]int64{} // ticks at which a failed series insert carrying (stream, day) returned
 	for _, b := range blocks {
 		if !strings.HasPrefix(b.Table, "time_series") {
 			continue
@@ -653,6 +663,7 @@ func runHistory(c *run.Ctx, cfg childCfg, gi int) {
 			k := sk{sid, sr.Date}
 			if !b.Succeeded() {
 				seriesFailed[k] = true
+				failedAt[k] = append(failedAt[k], b.RetT)
 				continue
 			}
 			if t, ok := seriesOK[k]; !ok || b.RetT < t {
@@ -725,6 +736,26 @@ func runHistory(c *run.Ctx, cfg childCfg, gi int) {
 					sig := kind + "/" + cause
 					if kind == "series-row-under-wrong-day" {
 						sig += "/" + zone
+					}
+					if cause == "after-failed-series-insert" {
+						// which push was acknowledged without its row: the one whose own insert failed, the client's
+						// retry after an error answer, or a later push of the stream
+						own := false // did an insert carrying this push's series row fail while the push was open?
+						for _, d := range []string{lo, hi} {
+							for _, t := range failedAt[sk{st.SID, d}] {
+								if t >= p.rec.SendT && t <= p.rec.AnsT {
+									own = true
+								}
+							}
+						}
+						switch {
+						case own:
+							sig += "/same-request"
+						case p.op == "client retry":
+							sig += "/client-retry-after-error-answer"
+						default:
+							sig += "/later-push"
+						}
 					}
 					c.Violation(sig, fmt.Sprintf("sample of stream %s at %s (UTC day %s) was acknowledged (%d, op %q, zone %s, cluster %q) but no successfully inserted series row dated %s..%s exists before the answer; series rows of the stream: %v",
 						st.SID, time.Unix(0, e.TsNs).UTC().Format(time.RFC3339), hi, p.rec.Status, p.op, cfg.TZ, cfg.Writer.ClusterName, lo, hi, have),
